@@ -212,8 +212,18 @@ theorem C11_wrapper_total (tys : List Ty) (args : List GVal) :
 theorem C11_proxy_matches_source :
     Skeleton.current.pxResultChecksValid = true ∧ Skeleton.current.pxArgsFreshPerInvocation = true := by decide
 
+/-- "…any number of times, also concurrently": `CallClosure` looks the closure up under the table's
+    (plain) mutex and releases it BEFORE running the caller's function, and the table is touched only by
+    register / look-up / release (checked against the regenerated skeleton).  So concurrent invocations
+    run concurrently (they can wait for each other), and the function's body may itself make a
+    closure-carrying call (which registers a closure, i.e. takes the same mutex) without deadlocking. -/
+theorem C11_invocations_run_outside_the_table_lock :
+    Skeleton.current.clInvokeOutsideLock = true ∧ Skeleton.current.clLockIsMutex = true ∧
+    Skeleton.current.clLookupUnderLock = true := by decide
+
 end Panrpc.Cv
 
+#print axioms Panrpc.Cv.C11_invocations_run_outside_the_table_lock
 #print axioms Panrpc.Cv.C11_args_converted
 #print axioms Panrpc.Cv.C11_convert_total_partial
 #print axioms Panrpc.Cv.C11_arg_count_mismatch_is_error_not_panic
